@@ -76,6 +76,9 @@ impl<'a> TXT<'a> {
         for char_str in &self.strings {
             let mut splited = char_str.data.splitn(2, |c| *c == b'=');
             let key = match splited.next() {
+                // RFC 6763 6.4, strings without a key (empty or beginning with '=') are ignored,
+                // an empty TXT record is written as a single empty string and has no attributes
+                Some(key) if key.is_empty() => continue,
                 Some(key) => match std::str::from_utf8(key) {
                     Ok(key) => key.to_owned(),
                     Err(_) => continue,
